@@ -43,7 +43,9 @@ type ktr struct {
 	cur   *fnInfo
 	out   []string
 	fail  []string
-	loads []string // memory-order log for the aliasing facts: "R p.f" / "W p.f"
+	loads []string // memory-order log for the aliasing facts (Lean `Ev` terms)
+	noLog bool
+	fieldCodes map[string]int
 }
 
 func (t *ktr) errf(n ast.Node, f string, a ...interface{}) {
@@ -173,6 +175,41 @@ func root(e ast.Expr) *ast.Ident {
 	}
 }
 
+// ev records a memory event on a pointer/slice parameter: kind "R"/"W", param name, field ("*" = whole pointee).
+func (t *ktr) ev(kind string, e ast.Expr, field string) {
+	if t.noLog || t.cur == nil {
+		return
+	}
+	r := root(e)
+	if r == nil {
+		return
+	}
+	for _, p := range t.cur.params {
+		if p.Name() == r.Name && (isPtrAgg(p.Type()) || leanType(p.Type()) == "Bytes") {
+			k := 0
+			if kind == "W" {
+				k = 1
+			}
+			pi := 0
+			for j, q := range t.cur.params {
+				if q.Name() == r.Name {
+					pi = j
+				}
+			}
+			fc := 0
+			if field != "*" && !(leanType(p.Type()) == "W4" && field == "s") {
+				key := field
+				if _, ok := t.fieldCodes[key]; !ok {
+					t.fieldCodes[key] = len(t.fieldCodes) + 1
+				}
+				fc = t.fieldCodes[key]
+			}
+			t.loads = append(t.loads, fmt.Sprintf("⟨%d, %d, %d⟩", k, pi, fc))
+			return
+		}
+	}
+}
+
 func (t *ktr) fieldSel(x *ast.SelectorExpr) string {
 	base := t.expr(x.X)
 	// Scalar has the single field `s`; a Scalar is modelled as its W4.
@@ -191,10 +228,17 @@ func (t *ktr) expr(e ast.Expr) string {
 		if x.Name == "nil" {
 			t.errf(e, "nil in expression")
 		}
+		t.ev("R", x, "*")
 		return x.Name
 	case *ast.ParenExpr:
 		return t.expr(x.X)
 	case *ast.SelectorExpr:
+		if _, isId := x.X.(*ast.Ident); isId {
+			save := t.noLog
+			t.ev("R", x.X, x.Sel.Name)
+			t.noLog = true
+			defer func() { t.noLog = save }()
+		}
 		if id, ok := x.X.(*ast.Ident); ok {
 			if _, isPkg := t.info.Uses[id].(*types.PkgName); isPkg {
 				t.errf(e, "package selector %s.%s", id.Name, x.Sel.Name)
@@ -210,7 +254,11 @@ func (t *ktr) expr(e ast.Expr) string {
 			t.errf(e, "non-constant index")
 			return "?"
 		}
+		t.ev("R", x.X, idx)
+		saveNL := t.noLog
+		t.noLog = true
 		base := t.expr(x.X)
+		t.noLog = saveNL
 		switch leanType(t.info.TypeOf(x.X)) {
 		case "W4":
 			return fmt.Sprintf("%s.w%s", base, idx)
@@ -391,6 +439,9 @@ func (t *ktr) callStmt(c *ast.CallExpr) {
 		lhs = append(lhs, r.Name)
 	}
 	val := t.call(c)
+	for _, i := range callee.written {
+		t.ev("W", actuals[i], "*")
+	}
 	switch len(lhs) {
 	case 0:
 		t.errf(c, "call statement without effect")
@@ -402,6 +453,19 @@ func (t *ktr) callStmt(c *ast.CallExpr) {
 }
 
 func (t *ktr) store(l ast.Expr, r string) {
+	saveNL := t.noLog
+	defer func() { t.noLog = saveNL }()
+	switch x := l.(type) {
+	case *ast.SelectorExpr:
+		t.ev("W", x.X, x.Sel.Name)
+	case *ast.IndexExpr:
+		if idx, ok := t.constOf(x.Index); ok {
+			t.ev("W", x.X, idx)
+		}
+	case *ast.StarExpr:
+		t.ev("W", x.X, "*")
+	}
+	t.noLog = true
 	switch x := l.(type) {
 	case *ast.Ident:
 		t.out = append(t.out, fmt.Sprintf("let %s := %s", x.Name, r))
@@ -766,6 +830,7 @@ func translateKernels(dir string, tags string, names []string, vars []string, ns
 		}
 	}
 	// functions in dependency-friendly order: as listed
+	var events []string
 	for _, n := range names {
 		short := n
 		if i := strings.Index(n, "."); i >= 0 {
@@ -777,6 +842,8 @@ func translateKernels(dir string, tags string, names []string, vars []string, ns
 		}
 		t.cur = fi
 		t.out = nil
+		t.loads = nil
+		t.fieldCodes = map[string]int{}
 		var params []string
 		for _, p := range fi.params {
 			params = append(params, fmt.Sprintf("(%s : %s)", p.Name(), leanType(p.Type())))
@@ -828,6 +895,27 @@ func translateKernels(dir string, tags string, names []string, vars []string, ns
 			t.errf(fi.decl, "function has no observable result")
 			continue
 		}
+		// parameter type codes (by position): 0 = not a pointer/slice, 1 = byte slice (read-only input), >= 2 = pointee type
+		var ptys []string
+		for _, p := range fi.params {
+			code := 0
+			if _, isSlice := p.Type().Underlying().(*types.Slice); isSlice {
+				code = 1
+			} else if isPtrAgg(p.Type()) {
+				switch leanType(p.Type()) {
+				case "Fe":
+					code = 2
+				case "W4":
+					code = 3
+				case "Bytes":
+					code = 4
+				default:
+					code = 5
+				}
+			}
+			ptys = append(ptys, fmt.Sprint(code))
+		}
+		events = append(events, fmt.Sprintf("  (%q, [%s], [%s])", fi.name, strings.Join(ptys, ", "), strings.Join(t.loads, ", ")))
 		fmt.Fprintf(&b, "\ndef %s %s : %s :=\n", fi.name, strings.Join(params, " "), strings.Join(rtys, " × "))
 		for _, l := range t.out {
 			b.WriteString("  " + l + "\n")
@@ -838,6 +926,7 @@ func translateKernels(dir string, tags string, names []string, vars []string, ns
 			b.WriteString("  (" + strings.Join(rvals, ", ") + ")\n")
 		}
 	}
+	fmt.Fprintf(&b, "\n/-- memory events (reads/writes through pointer and slice parameters, in program order) of every kernel:\n(function, type code of each parameter, events) -/\ndef memEvents : List (String × List Nat × List Ev) := [\n%s]\n", strings.Join(events, ",\n"))
 	fmt.Fprintf(&b, "\nend EdVerif.Gen.%s\n", ns)
 	fails = append(fails, t.fail...)
 	sort.Strings(fails)
